@@ -302,3 +302,35 @@ Example C11_site0_example :
   zero tr_cf (binit_shared tr_cf) 0 (BSig KEnd) = true /\ zero tr_cf (binit_shared tr_cf) 0 (BRun 0 0 3 3) = true /\
   zero tr_cf (binit_shared tr_cf) 0 (BSpawn 0) = true /\ zero tr_cf (binit_shared tr_cf) 0 (BSpawn 1) = false.
 Proof. vm_compute. repeat split; reflexivity. Qed.
+
+(* ================================================================== the loop of do_work_chunk on every real chunk
+   for every chunk index the arithmetic can produce (idx < k) the range [i_begin, i_end) is non-empty and
+   ends at or below n < 2^bits, so the loop's `++i` never wraps in the shape type, and the loop enters f
+   for exactly the indices [chunk_calls] predicts — all of [i_begin, i_end) when none of them throws *)
+From Pika Require Import Proofs.BulkChunkLoop.
+
+Theorem C11_chunk_loop_of_every_chunk : forall cf t off idx g c, guard cf -> 0 < cn cf ->
+  get_chunk_size (N.of_nat (cW cf)) (cn cf) = Some c -> idx < get_num_chunks (cn cf) c ->
+  let i := chunk_begin (cbits cf) c idx in
+  let e := chunk_end (cbits cf) c (cn cf) idx in
+  let fuel := N.to_nat (e - i) in
+  let r := chunk_calls (cthrows cf) i fuel 0 in
+  let k := N.to_nat (fst r) in
+  let c' := solo cf t (2 * k) (g, BRun off idx i e) in
+  i < e /\ e <= cn cf /\
+  map fst (calls (fst c')) = rev (map (fun d => i + N.of_nat d) (seq 0 k)) ++ map fst (calls g) /\
+  snd c' = (if snd r then BExch (i + fst r - 1) else BRun off idx e e) /\
+  sigs (fst c') = sigs g /\ remaining (fst c') = remaining g /\ queues (fst c') = queues g /\
+  ((forall j, i <= j -> j < e -> cthrows cf j = false) -> fst r = e - i /\ snd r = false).
+Proof. exact real_chunk_loop. Qed.
+Print Assumptions C11_chunk_loop_of_every_chunk.
+
+(* hypotheses satisfiable: the 8-bit-shape configuration of the earlier example, chunk 1 *)
+Example C11_chunk_loop_example2 :
+  let cf := {| cW := 3; cn := 100; cbits := 8; clocal := 0; cthrows := fun j => N.eqb j 30; cvals := 7 |} in
+  guard cf /\ get_chunk_size 3 100 = Some 8 /\ 1 < get_num_chunks 100 8 /\
+  chunk_begin 8 8 1 = 8 /\ chunk_end 8 8 100 1 = 16.
+Proof.
+  cbn zeta. unfold guard, W_ok. cbn [cW cn cbits clocal].
+  repeat split; try lia; try (vm_compute; reflexivity).
+Qed.
